@@ -17,8 +17,12 @@ cut point:
 * `read_call_on_truncated_file` — for the read calls of `Model/Reader` the verdict is explicit: the call raises iff one of
   its range reads reaches beyond the cut.
 
-Not covered by a theorem (left to the oracle over captured write logs, see DESIGN.md): `thorough`-mode crash states in
-which the count/table patch is torn — there the header a reader parses differs from the finished one.
+Scope: the property quantifies over prefixes of the *sequence of writes* and byte lengths of the finished file; a write torn
+in the middle is outside its quantifier.  Every write-prefix state is a byte prefix of the finished file except inside the
+regions patched in place later (hash 960–979; in `thorough` mode also the array count 64–67 and the table 980–2047):
+`read_call_pending_patch` covers every sample read in all of them (a sample read uses none of those bytes — any `R`).
+Header regeneration in the `thorough` states *before* the count/table patch (where the header still names 89 stored arrays
+and no footer byte exists, so every lookup reaches beyond the file) is decided by the oracle over captured write logs.
 -/
 namespace Sgz.Props.C18
 open Sgz
